@@ -112,6 +112,59 @@ func lkSummarize(fset *token.FileSet, body ast.Node, calls map[string]bool) []st
 	return ev
 }
 
+// lkPeerInfoWrites: assignments / definitions whose left side is peerInfo, a field of it or
+// client.peerInfo, and calls that receive &peerInfo or the address of one of its fields.
+func lkPeerInfoWrites(fset *token.FileSet, body ast.Node) []string {
+	mentions := func(e ast.Expr) bool {
+		t := lkExprText(fset, e)
+		return t == "peerInfo" || strings.HasPrefix(t, "peerInfo.") || t == "client.peerInfo" || strings.HasPrefix(t, "client.peerInfo.")
+	}
+	var ev []string
+	var stack []ast.Node // the nodes being visited, to name the conditions a write sits under
+	under := func() string {
+		out := ""
+		for _, n := range stack {
+			switch x := n.(type) {
+			case *ast.IfStmt:
+				out += "if " + lkExprText(fset, x.Cond) + ": "
+			case *ast.ForStmt, *ast.RangeStmt, *ast.SwitchStmt, *ast.TypeSwitchStmt, *ast.SelectStmt:
+				out += "nested: "
+			}
+		}
+		return out
+	}
+	ast.Inspect(body, func(n ast.Node) bool {
+		if n == nil {
+			stack = stack[:len(stack)-1]
+			return true
+		}
+		switch x := n.(type) {
+		case *ast.AssignStmt:
+			for _, l := range x.Lhs {
+				if mentions(l) {
+					ev = append(ev, under()+lkExprText(fset, x))
+					break
+				}
+			}
+		case *ast.IncDecStmt:
+			if mentions(x.X) {
+				ev = append(ev, under()+lkExprText(fset, x))
+			}
+		case *ast.CallExpr:
+			for _, a := range x.Args {
+				if u, ok := a.(*ast.UnaryExpr); ok && u.Op == token.AND && mentions(u.X) {
+					ev = append(ev, under()+"call "+lkCallee(x)+"("+lkExprText(fset, a)+")")
+				}
+			}
+		case *ast.FuncLit:
+			return false
+		}
+		stack = append(stack, n)
+		return true
+	})
+	return ev
+}
+
 func lkStrList(name string, l []string) string {
 	var sb strings.Builder
 	fmt.Fprintf(&sb, "Definition %s : list string :=\n  [", name)
@@ -339,6 +392,29 @@ func genLookupdTables(repo string) (string, error) {
 		}
 		sb.WriteString(lkStrList("lookupd_"+h+"_summary", lkSummarize(p.fset, fd.Body, dbcalls)))
 	}
+
+	// ---- identity of a connection in the registry (C15): every statement of IDENTIFY that
+	// writes peerInfo (or a field of it, or client.peerInfo), in source order, with the place
+	// of json.Unmarshal between them; and the full text of every registry call of the
+	// connection handlers that takes the connection's identity
+	sb.WriteString(lkStrList("lookupd_IDENTIFY_peerinfo_writes", lkPeerInfoWrites(p.fset, p.method("LookupProtocolV1", "IDENTIFY").Body)))
+	var uses []string
+	for _, m := range []string{"IDENTIFY", "REGISTER", "UNREGISTER", "IOLoop"} {
+		ast.Inspect(p.method("LookupProtocolV1", m).Body, func(n ast.Node) bool {
+			if c, ok := n.(*ast.CallExpr); ok {
+				switch lkCallee(c) {
+				case "AddProducer", "RemoveProducer", "LookupRegistrations":
+					var as []string
+					for _, a := range c.Args {
+						as = append(as, lkExprText(p.fset, a))
+					}
+					uses = append(uses, m+": "+lkCallee(c)+"("+strings.Join(as, ", ")+")")
+				}
+			}
+			return true
+		})
+	}
+	sb.WriteString(lkStrList("lookupd_identity_uses", uses))
 
 	// ---- the two comparisons of FilterByActive / IsTombstoned
 	fa := p.method("Producers", "FilterByActive")
